@@ -1790,8 +1790,21 @@ parse_27(vbi_decoder *vbi, uint8_t *p,
 
 	vbi = vbi;
 
-	if (cvtp->function == PAGE_FUNCTION_DISCARD)
+	switch (cvtp->function) {
+	case PAGE_FUNCTION_DISCARD:
 		return TRUE;
+
+	case PAGE_FUNCTION_GPOP:
+	case PAGE_FUNCTION_POP:
+	case PAGE_FUNCTION_AIT:
+		/* The data of these pages does not begin with a struct
+		   ttx_lop, the links would overwrite object pointers,
+		   triplets or AIT titles. */
+		return TRUE;
+
+	default:
+		break;
+	}
 
 	if ((designation = vbi_unham8 (*p)) < 0)
 		return FALSE;
